@@ -1,5 +1,5 @@
 import BHS.Props.C02
-import BHS.Props.SqlShape
+import BHS.Props.SqlShape.Verify
 open BHS.Props.C02
 #print axioms lcUnique_of_inv
 #print axioms verifyHash_some
